@@ -47,8 +47,8 @@ PATHS = ["a", "b", "ab", "c", "a,b", "bc", "a.txt", "d/e", "d/f", "a=b", "z"]
 CONTENTS = ["", "a", "b", "ab", "c", "bc", "abc", "x,y", "hello\n", "\x00", "\x01", "\x00\x00\x00\x00\x00\x00\x00\x01a"]
 DEPS = ["", "d1", "d2", "d1d2", "0123456789abcdef0123456789abcdef", "d1,d2"]
 OUTS = [("file", "o"), ("file", "o2"), ("dir", "o"), ("dir", "d/"), ("docker", "img:tag"), ("file", "o,file::o2"), ("file", "a"), ("file", "b")]
-FPK = ["k", "k2", "a", "a=b", "v"]
-FPV = ["", "v", "b=c", "c", "1"]
+FPK = ["k", "k2", "a", "a=b", "v", "platform", "label", "command", "inputs", "os", "arch"]
+FPV = ["", "v", "b=c", "c", "1", "linux/amd64", "darwin/arm64", "l/a"]
 PLATS = ["linux/amd64", "darwin/arm64", "l/a", "linux/amd64x"]
 
 
@@ -123,6 +123,11 @@ def targeted_pairs():
     out.append(("shift:fingerprint|platform", st(fingerprint={"k": "v"}, platform="l/a"), st(fingerprint={"k": "vl"}, platform="/a")))
     out.append(("platform-vs-none", st(platform="l/a", fingerprint={"k": "v"}), st(platform=None, fingerprint={"k": "vl/a"})))
     out.append(("multiplatform-ignores-platform", st(platform=None), st(platform=None)))
+    # fingerprint entries named like other key components must stay independent of them
+    out.append(("fingerprint-named-platform", st(fingerprint={"platform": "l/a"}), st(fingerprint={"platform": "darwin/arm64"})))
+    out.append(("fingerprint-named-platform", st(fingerprint={"platform": "l/a"}, platform="l/a"), st(fingerprint={}, platform="l/a")))
+    out.append(("fingerprint-named-platform", st(fingerprint={"platform": "l/a"}, platform=None), st(fingerprint={}, platform="l/a")))
+    out.append(("fingerprint-named-command", st(fingerprint={"command": "cmd"}), st(fingerprint={"command": "other"})))
     # file boundaries
     out.append(("shift:file|file", st(inputs=["a", "b"], files={"a": "ab", "b": "c"}), st(inputs=["a", "b"], files={"a": "a", "b": "bc"})))
     out.append(("shift:file|file", st(inputs=["a", "b"], files={"a": "x", "b": ""}), st(inputs=["a", "b"], files={"a": "", "b": "x"})))
